@@ -1,6 +1,8 @@
 package c05
 
 import (
+	"fmt"
+	"os"
 	"strings"
 	"testing"
 )
@@ -21,6 +23,13 @@ var fuzzSeeds = []string{
 	"%section p .romtext iomode:sync\n entry a\na:\n rset r0, 1\nl:\n r2owa r0, o0\n add r0, r0\n nop\n nop\n j l\n%endsection\n%section q .romtext iomode:sync\n entry a\na:\n i2rw r1, i0\n inc r1\n nop\n nop\n mov o0, r1\n nop\n nop\n nop\n j a\n%endsection\n%meta cpdef x romcode: p\n%meta cpdef y romcode: q\n%meta ioatt l cp: x, index:0, type:output\n%meta ioatt l cp: y, index:0, type:input\n%meta ioatt o cp: y, index:0, type:output\n%meta ioatt o cp: bm, index:0, type:output\n%meta bmdef global registersize:32\n",
 }
 
+// knownFuzzPanics: crash sites the fuzzer reached with texts the line parser accepts but that are not
+// well-formed programs (outside the property statement; listed in the report as observations). They are
+// skipped so that the search continues behind them.
+var knownFuzzPanics = map[string]string{
+	"basm.templateResolver": "a cpdef with a user-defined key (templated) names a romcode section that does not exist: nil section dereferenced",
+}
+
 func FuzzParseAssembly(f *testing.F) {
 	for i, s := range fuzzSeeds {
 		f.Add(s, uint8(i))
@@ -36,6 +45,23 @@ func FuzzParseAssembly(f *testing.F) {
 			}
 		}
 		cfg := cfgs[int(sel)%len(cfgs)]
+		if dir := os.Getenv("C05_FUZZ_TRACE"); dir != "" {
+			// a crash of the whole worker process (a panic in a goroutine of the simulator cannot be
+			// recovered) is blamed on an arbitrary input by the fuzzing engine: leave the real one behind
+			_ = os.WriteFile(fmt.Sprintf("%s/current-%d.txt", dir, os.Getpid()), []byte(cfg+"\n"+src), 0o644)
+		}
+		if _, aerr := assemble(src, cfg); aerr != nil {
+			if aerr.Phase == phParse+"-panic" || aerr.Phase == phParse {
+				return // not accepted by the line parser (or the parser itself panics on garbage): out of domain
+			}
+			if strings.HasSuffix(aerr.Phase, "-panic") {
+				if why, known := knownFuzzPanics[aerr.Where]; known {
+					t.Skip("known crash site: " + why)
+				}
+				t.Fatalf("sig=asm-panic the line parser accepts the text, then the assembler panics (%s in %s): %v\n--- source ---\n%s", aerr.Phase, aerr.Where, aerr.Err, src)
+			}
+			return // clean error
+		}
 		c := Case{Src: src, Cfg: cfg, Ticks: 160, In: [][]uint64{{1, 2, 3, 4, 5, 6, 7, 8}, {9, 8, 7, 6, 5, 4, 3, 2}, {0, 255, 0, 255}, {5, 5, 5, 5}}}
 		out := evalCase(c, modeFuzz)
 		if out.Fail == nil {
